@@ -17,7 +17,7 @@ PROPS = {
     "C06": {"families": [("c06", 1)], "judge": ["C06"], "quick_s": 20, "thorough_s": 600},
     "C07": {"families": [("faultfree", 1)], "judge": ["C07"], "quick_s": 20, "thorough_s": 600},
     "C08": {"families": [("c08", 2), ("mixed", 1), ("faultfree", 1)], "judge": ["C08"], "quick_s": 20, "thorough_s": 600},
-    "C09": {"families": [("mixed", 1), ("faultfree", 1)], "judge": ["C09"], "quick_s": 20, "thorough_s": 600, "crash_is_violation": True},
+    "C09": {"families": [("c09stop", 2), ("mixed", 1), ("faultfree", 1)], "level": "fault_enumeration", "judge": ["C09"], "quick_s": 20, "thorough_s": 600, "crash_is_violation": True},
     "C10": {"families": [("c10", 2), ("mixed", 1), ("pause", 1)], "judge": ["C10"], "quick_s": 20, "thorough_s": 600},
     "C11": {"families": [("c11", 1)], "judge": ["C11"], "quick_s": 20, "thorough_s": 600, "crash_is_violation": True},
     "C12": {"families": [("c12", 1)], "judge": ["C12"], "quick_s": 20, "thorough_s": 600},
@@ -53,7 +53,7 @@ MANIFEST_TEXT = {
     "C06": _t("seeded search: leader removed six ways at an arbitrary step, watch events dropped/held (including all), transient Watch/Get/Create failures; every vacancy with a healthy candidate bounded by 500ms+100ms+latencies, and a leader must exist after a fault-free tail", "deterministic simulation + bounded-liveness check over vacancy intervals", "DESIGN.md 6/C06"),
     "C07": _t("seeded search over fault-free plans with adversarial-in-time watch deliveries and concurrent acquisition rounds; no falling edge before the instance's own stop, record continuously the term's", "deterministic simulation + term stability check", "DESIGN.md 6/C07"),
     "C08": _t("seeded search incl. a family with coinciding demotion causes (aligned tickers, constant latencies) and preemption before every lock acquisition; per-instance state machine over claim edges and callback entries", "deterministic simulation + alternation state machine over the callback log", "DESIGN.md 6/C08"),
-    "C09": _t("seeded search over stop variants at arbitrary times incl. inside in-flight operations, plus worker-crash/deadlock detection; after the return of a successful stop: no claim, no OnPromote, no new store operation, no library goroutine left, time bounds, DeleteKey effect", "deterministic simulation + post-stop silence check + goroutine dump + watchdog", "DESIGN.md 6/C09"),
+    "C09": _t("stop points enumerated by (operation number 1-16 of the stopping instance, phase: before issue / between issue and application / between application and response / after return, 7 stop variants, optional second stop or start) with a random remainder of the schedule, plus stops at random times in the mixed families and worker-crash/deadlock detection; after the return of a successful stop: no claim, no OnPromote, no new store operation, no library goroutine left, time bounds, DeleteKey effect", "deterministic simulation + post-stop silence check + goroutine dump + watchdog", "DESIGN.md 6/C09"),
     "C10": _t("safety on every replacement under the full fault set; promptness/stability in a fault-free family (latency and watch delay <= H/10) over sampled priority/flag assignments and start orders", "deterministic simulation + mutation-log check + bounded-liveness check", "DESIGN.md 6/C10"),
     "C11": _t("seeded search over notification sequences on a timing lattice around the grace period, with partitions, ownership changes and stops; (a) never before G since the latest notification, (b) exactly at expiry, (c) reconnect verification outcome vs. record, plus deadlock/panic detection", "deterministic simulation + timing checks on the fake clock + watchdog", "DESIGN.md 6/C11"),
     "C12": _t("seeded search over scripted health sequences (streaks m-1, m, m+1 around term boundaries, slow results), thresholds 1-6 and default; reference counter run over the health-call log", "deterministic simulation + reference counter", "DESIGN.md 6/C12"),
